@@ -5,7 +5,7 @@
 From Coq Require Import ZArith List String Bool Sorting.Permutation.
 Import ListNotations.
 From TD Require Import Model.Keys Proofs.KeysP Model.C04_Tree Model.C04_Ops Model.C04_Views Model.C04_Step
-     Spec.C04_NestedDict Proofs.C04_AssocP Proofs.C04_CoreP Proofs.C04_RenameP Proofs.C04_UpdateP Proofs.C04_ViewsP Proofs.C04_FlattenP
+     Spec.C04_NestedDict Proofs.C04_AssocP Proofs.C04_CoreP Proofs.C04_RenameP Proofs.C04_UpdateP Proofs.C04_ViewsP Proofs.C04_FlattenP Proofs.C04_UnflattenP
      Proofs.C04_HistP Proofs.C04_SpellP Proofs.C04_RefuteP.
 Open Scope string_scope.
 Open Scope list_scope.
@@ -24,7 +24,8 @@ Theorem C04_spelling_entry_points : forall k1 k2, wfb k1 = true -> wfb k2 = true
     set_ k1 v es = set_ k2 v es /\ del_ k1 es = del_ k2 es /\ get k1 es = get k2 es
     /\ pop k1 hd es = pop k2 hd es /\ view_contains inc k1 es = view_contains inc k2 es
     /\ setdefault k1 v es = setdefault k2 v es
-    /\ step es (OSet k1 v) = step es (OSetItem k2 v) /\ step es (ODel k1) = step es (ODelItem k2).
+    /\ step es (OSet k1 v) = step es (OSetItem k2 v) /\ step es (ODel k1) = step es (ODelItem k2)
+    /\ td_contains k1 es = td_contains k2 es.
 Proof. exact spelling_entry_points. Qed.
 Print Assumptions C04_spelling_entry_points.
 
@@ -41,14 +42,12 @@ Theorem C04_spelling_select_exclude : forall ks1 ks2 strict inplace es,
 Proof. exact spelling_select_exclude. Qed.
 Print Assumptions C04_spelling_select_exclude.
 
-(* `in` on the tensordict itself is NOT spelling-independent: see C04_contains_spelling_refuted (D43) *)
-
 (* ------------------------------------------------------------------------------------------------------------
    2. refinement, one step: for every state and every operation in scope, the model's step (transcribed from the
    code) and the plain nested dict agree on success/failure, on the state afterwards, on the returned value, on the
    out-of-place results and on the object the history continues with; a failing step leaves the state unchanged. *)
 Theorem C04_refine_step : forall es o so,
-  abs_op o = Some so -> in_scope o ->
+  wfE es -> abs_op o = Some so -> in_scope o ->
   match nd_step py_split (absE es) so with
   | Some r => sr_err (step es o) = None /\ abs_sres (step es o) = r
   | None => sr_err (step es o) <> None /\ (atomic o -> sr_cont (step es o) = es)
@@ -66,8 +65,10 @@ Theorem C04_history : forall ops sops es, wfE es ->
 Proof. exact history. Qed.
 Print Assumptions C04_history.
 
-(* the rename step in isolation, on canonical keys: pop-then-store = store-then-delete unless old < new (D42) *)
-Theorem C04_rename_refines : forall p q safe es, p <> [] -> q <> [] -> ~ strict_prefix p q ->
+(* the rename step in isolation, on canonical keys: pop-then-store (dict) = store-then-delete, or detach-then-store when
+   the new key lies under the old one (after the fix of D42).  A SAFE rename onto a key under the old one is left out:
+   its membership test raises when the path runs through a tensor below the old entry. *)
+Theorem C04_rename_refines : forall p q safe es, p <> [] -> q <> [] -> wfE es -> (strict_prefix p q -> safe = false) ->
   match rename_r (path_keyres p) (path_keyres q) safe es with
   | (es', None) => nd_rename p q safe (absE es) = Some (absE es')
   | (es', Some _) => nd_rename p q safe (absE es) = None /\ es' = es
@@ -93,6 +94,28 @@ Theorem C04_flatten_out_refines : forall sep es,
 Proof. exact flatten_out_refines. Qed.
 Print Assumptions C04_flatten_out_refines.
 
+(* flatten_keys in place (after the fix of D24 / D24b) builds the same mapping and changes nothing when it raises *)
+Theorem C04_flatten_in_eq : forall sep es,
+  flatten_in sep es = match flatten_out sep es with Ok out => (out, None) | Raise e => (es, Some e) end.
+Proof. exact flatten_in_eq. Qed.
+Print Assumptions C04_flatten_in_eq.
+
+(* unflatten_keys: python's str.split never returns the key itself as its first piece (so the safe rename the code
+   issues never targets the entry's own subtree), and the loop over the root keys refines the dict's "move every key
+   that contains the separator to the path of its pieces; an occupied or unreachable destination is an error" *)
+Theorem C04_split_pieces : forall sep k, sep <> "" -> str_contains sep k = true ->
+  exists q0 q1 qs, split sep k = q0 :: q1 :: qs /\ q0 <> k.
+Proof. exact split_pieces. Qed.
+Print Assumptions C04_split_pieces.
+
+Theorem C04_unflatten_refines : forall sep, sep <> "" -> forall ks es, wfE es ->
+  match unflatten_loop sep ks es with
+  | (es', None) => nd_unflatten (py_split sep) ks (absE es) = Some (absE es') /\ wfE es'
+  | (es', Some _) => nd_unflatten (py_split sep) ks (absE es) = None /\ wfE es'
+  end.
+Proof. exact unflatten_loop_refines. Qed.
+Print Assumptions C04_unflatten_refines.
+
 (* ------------------------------------------------------------------------------------------------------------
    4. views, for every include_nested x leaves_only x sort x is_leaf combination *)
 Theorem C04_items_view : forall inc lo so nt es,
@@ -113,35 +136,18 @@ Theorem C04_len_view : forall inc lo so nt es,
 Proof. exact len_view_spec. Qed.
 Print Assumptions C04_len_view.
 
-(* values = the values of the items, except for D41 *)
-Theorem C04_values_view_partial : forall inc lo so nt es,
-  (inc = false /\ lo = false /\ so = true /\ es = []) \/
+(* values = the values of the items, for every flag combination (D41 fixed) *)
+Theorem C04_values_view : forall inc lo so nt es,
   values_view inc lo so nt es = Ok (map snd (items_view inc lo so nt es)).
 Proof. exact values_view_spec. Qed.
-Print Assumptions C04_values_view_partial.
+Print Assumptions C04_values_view.
 
-Definition C04_values_view_full_statement : Prop := forall inc lo so nt es,
-  values_view inc lo so nt es = Ok (map snd (items_view inc lo so nt es)).
-
-Theorem C04_values_view_refuted :
-  values_view false false true false [] = Raise EOther /\ items_view false false true false [] = [].
-Proof. exact values_sorted_empty_refuted. Qed.
-Print Assumptions C04_values_view_refuted.
-
-(* membership agrees with iteration for nested views that are not leaves_only; get agrees with the dict *)
-Theorem C04_contains_partial : forall so nt p es b, wfE es -> p <> [] ->
-  view_contains_path true p es = Ok b -> (b = true <-> In p (keys_view true false so nt es)).
-Proof. exact contains_iff_listed. Qed.
-Print Assumptions C04_contains_partial.
-
-Definition C04_contains_full_statement : Prop := forall inc lo so nt k es b, wfE es -> wfb k = true ->
+(* membership agrees with iteration of the same view for EVERY include_nested x leaves_only x sort x is_leaf combination
+   and every spelling of the key (S7 fixed); get agrees with the dict *)
+Theorem C04_contains : forall inc lo so nt k es b, wfE es -> wfb k = true ->
   keys_contains inc lo nt k es = Ok b -> (b = true <-> In (strings k) (keys_view inc lo so nt es)).
-
-Theorem C04_contains_refuted :
-  exists es k, wfE es /\ wfb k = true /\
-    keys_contains true true false k es = Ok true /\ ~ In (strings k) (keys_view true true false false es).
-Proof. exact contains_leaves_only_refuted. Qed.
-Print Assumptions C04_contains_refuted.
+Proof. exact contains_iff_listed. Qed.
+Print Assumptions C04_contains.
 
 Theorem C04_get_refines : forall p es d, p <> [] ->
   match get_tuple p es d with
@@ -170,7 +176,7 @@ Proof. exact to_dict_spec. Qed.
 Print Assumptions C04_to_dict.
 
 (* ------------------------------------------------------------------------------------------------------------
-   5. where /repo deviates from the nested dict: refuted statements with their witnesses *)
+   5. what is left: the operation kinds whose refinement is stated but not proved, and the one remaining deviation *)
 Definition C04_refine_step_full_statement : Prop := forall es o so,
   wfE es -> abs_op o = Some so -> values_wf o ->
   match nd_step py_split (absE es) so with
@@ -179,8 +185,7 @@ Definition C04_refine_step_full_statement : Prop := forall es o so,
   end.
 
 (* stated, not proved (the correspondence run checks it on every generated case): the remaining operation kinds refine
-   the nested dict on the domain on which a plain dict replay is determined — prefix-free key lists, strict select,
-   a non-empty separator *)
+   the nested dict on the domain on which a plain dict replay is determined — prefix-free key lists, strict select *)
 Fixpoint prefix_free (ps : list (list string)) : Prop :=
   match ps with
   | [] => True
@@ -192,7 +197,6 @@ Definition in_scope_remaining (o : op) : Prop :=
   | OSelect ks _ strict _ => strict = true /\ prefix_free (map strings ks)
   | OExclude ks _ _ => prefix_free (map strings ks)
   | OSplit sets _ _ _ _ => prefix_free (map strings (List.concat sets))
-  | OUnflatten sep _ _ => sep <> ""
   | _ => False
   end.
 
@@ -203,29 +207,15 @@ Definition C04_refine_step_remaining_statement : Prop := forall es o so,
   | None => sr_err (step es o) <> None
   end.
 
-Theorem C04_flatten_inplace_refuted :
-  exists es, wfE es /\
-    match nd_step py_split (absE es) (SFlatten "." true false) with
-    | Some r => sr_err (step es (OFlatten "." true false)) = None /\ absE (sr_self (step es (OFlatten "." true false))) <> s_self r
-    | None => False
+(* D48 (known finding, not repaired): select(k, (k, sub)) narrows k to k.sub; the dict replay keeps all of k *)
+Theorem C04_select_subkey_refuted :
+  exists es ks, wfE es /\ Forall (fun k => wfb k = true) ks /\
+    match nd_step py_split (absE es) (SSelect (map strings ks) false true false), sr_results (step es (OSelect ks false true false)) with
+    | Some r, Some outs => sr_err (step es (OSelect ks false true false)) = None /\ Some (map absE outs) <> s_results r
+    | _, _ => False
     end.
-Proof. exact flatten_inplace_refuted. Qed.
-Print Assumptions C04_flatten_inplace_refuted.
-
-Theorem C04_rename_refuted :
-  exists es k1 k2, wfE es /\ wfb k1 = true /\ wfb k2 = true /\ strict_prefix (strings k1) (strings k2) /\
-    match nd_step py_split (absE es) (SRename (strings k1) (strings k2) false) with
-    | Some r => sr_err (step es (ORename k1 k2 false)) = None /\ absE (sr_self (step es (ORename k1 k2 false))) <> s_self r
-    | None => False
-    end.
-Proof. exact rename_into_itself_refuted. Qed.
-Print Assumptions C04_rename_refuted.
-
-Theorem C04_contains_spelling_refuted :
-  exists es, wfE es /\ wfb (KT [KS ""]) = true /\ strings (KT [KS ""]) = strings (KS "") /\
-    td_contains (KS "") es = Ok true /\ td_contains (KT [KS ""]) es = Raise EOther.
-Proof. exact contains_empty_string_refuted. Qed.
-Print Assumptions C04_contains_spelling_refuted.
+Proof. exact select_subkey_refuted. Qed.
+Print Assumptions C04_select_subkey_refuted.
 
 (* ------------------------------------------------------------------------------------------------------------
    non-vacuity: a three-level tree with an empty nested node and a non-tensor leaf meets the hypotheses *)
@@ -235,19 +225,21 @@ Definition ex_ops : list op :=
    ORename (KT [KS "n"; KS "b"]) (KT [KT [KS "n"]]) false;          (* new key is a prefix of the old one *)
    OUpdate [(KT [KS "u"; KS "v"], Node [("w", Leaf LS 4)]); (KS "u", Node [("v", Node [("x", Leaf LT 5)])])];
    OPop (KS "zz") (Some 5%Z); OSetDefault (KT [KS "q"; KS "r"]) (Node []); ODel (KS "a"); OFilterEmpty;
-   OFlatten "." false true].
+   ORename (KS "u") (KT [KS "u"; KS "t"]) false;                    (* new key under the old one (D42 fixed) *)
+   OFlatten "." true false;                                         (* in place (D24 fixed) *)
+   OUnflatten "." true false].
 
 Example C04_ex_history :
   exists sops,
     Forall2 (fun o so => abs_op o = Some so /\ in_scope o /\ values_wf o) ex_ops sops
     /\ nd_ok (absE ex_tree) ex_ops sops
     /\ run ex_tree ex_ops =
-       [("n", Leaf LT 2%Z); ("s", Leaf LS 3%Z); ("u.v.w", Leaf LS 4%Z); ("u.v.x", Leaf LT 5%Z)].
+       [("n", Leaf LT 2%Z); ("s", Leaf LS 3%Z);
+        ("u", Node [("t", Node [("v", Node [("w", Leaf LS 4%Z); ("x", Leaf LT 5%Z)])])])].
 Proof.
   eexists. split; [|split].
   - unfold ex_ops. repeat (apply Forall2_cons; [split; [reflexivity|split]|]); try apply Forall2_nil; cbn;
-      try exact I; try (repeat constructor; cbn; intuition discriminate).
-    intros [r [N E]]. cbn in E. destruct r; [congruence|discriminate].
+      try exact I; try (repeat constructor; cbn; intuition discriminate); try (intros _; reflexivity); try discriminate.
   - vm_compute. tauto.
   - reflexivity.
 Qed.
